@@ -105,3 +105,28 @@ package redis
 //@ call Conn.Do#2 assert [C09 C10] commandName == "lset" && len(args) == 3 && args[0].(type string) && args[0].(string) == concat("queue:", q.clientID) && args[1].(type int) && args[1].(int) == k && args[2].(type []byte)
 //@ ensures [C09 C10] replaced ==> err == nil && called(Conn.Do#2) == 1 && has(q.readCache, id)
 //@ ensures [C09 C10] !replaced ==> (forall p uint16 :: has(q.readCache, p) == old(has(q.readCache, p)))
+
+// Read (new messages for the client): asks for as many elements from the read position on as there are identifiers;
+// an expired or oversize element is removed from the list and reported dropped, never handed out; a QoS 0 element is
+// removed and handed out; every other element gets the next of the supplied identifiers, in order, is written back at the
+// read position — which then advances — and is remembered in the read cache; everything is flushed once.
+//@ func (*queue.Publish).TotalBytes trusted pure
+//@ func (*Queue).Read
+//@ props C10 C09
+//@ requires [C10] q != nil && q.pool != nil && q.cond != nil && q.cond.L != nil && q.readCache != nil && q.notifier != nil
+//@ waive panic nil index bounds assert-type overflow requires
+//@ modifies heap, ghostall(redigo.Conn.$cmds), ghostall(redigo.Conn.$lastCmd), ghostall(redigo.Conn.$flushes), ghostall(redigo.Conn.$lastInt), ghost(q.notifier.$queued), ghost(q.notifier.$inflight), ghost(q.notifier.$drops), ghost(q.notifier.$lastDrop), ghost(q.notifier.$lastErr)
+//@ loop 1 invariant q != nil && q == old(q) && conn != nil
+//@ loop 2 invariant q != nil && q == old(q) && conn != nil && q.readCache == old(q.readCache) && q.notifier == old(q.notifier) && q.clientID == old(q.clientID) && pids == old(pids) && 0 <= pflag && pflag == inflightDelta && called(Conn.Flush#1) == 0
+//@ call Conn.Do#1 assert [C10] commandName == "lrange" && len(args) == 3 && args[0].(type string) && args[0].(string) == concat("queue:", q.clientID) && args[1].(type int) && args[1].(int) == q.current && args[2].(type int) && args[2].(int) == q.current + len(pids) - 1
+//@ call Conn.Send#1 assert [C10] commandName == "lrem" && len(args) == 3 && args[0].(type string) && args[0].(string) == concat("queue:", q.clientID) && args[1].(type int) && args[1].(int) == 1 && args[2].(type []byte)
+//@ call Conn.Send#2 assert [C10] commandName == "lrem" && len(args) == 3 && args[0].(type string) && args[0].(string) == concat("queue:", q.clientID) && args[1].(type int) && args[1].(int) == 1 && args[2].(type []byte)
+//@ call Conn.Send#3 assert [C10] commandName == "lrem" && len(args) == 3 && args[0].(type string) && args[0].(string) == concat("queue:", q.clientID) && args[1].(type int) && args[1].(int) == 1 && args[2].(type []byte)
+//@ call Conn.Send#4 assert [C10 C09] commandName == "lset" && len(args) == 3 && args[0].(type string) && args[0].(string) == concat("queue:", q.clientID) && args[1].(type int) && args[1].(int) == q.current && args[2].(type []byte)
+// the identifiers are handed out in the order supplied, one per QoS>0 message
+//@ call MessageWithID.SetID#1 assert [C10] id == pids[pflag] && pflag == inflightDelta
+//@ ensures [C10 C09] err == nil ==> called(Conn.Flush#1) == 1
+// every element looked at is exactly one of: handed out, or reported dropped (expired / too large) — never both, never neither
+//@ loop 2 step [C10] len(elems) + called(Notifier.NotifyDropped#1) + called(Notifier.NotifyDropped#2) == at(iter2, len(elems) + called(Notifier.NotifyDropped#1) + called(Notifier.NotifyDropped#2)) + 1
+//@ call Notifier.NotifyDropped#1 assert [C10] $arg1 == e && $arg2 == queue.ErrDropExpired
+//@ call Notifier.NotifyDropped#2 assert [C10] $arg1 == e && $arg2 == queue.ErrDropExceedsMaxPacketSize
